@@ -307,6 +307,11 @@ func (u *UntrustedInputChecker) OnVisitNodeLeave(n ExprNode) {
 	if u.safeCalls > 0 {
 		if f, ok := n.(*FuncCallNode); ok && isSafeFuncCall(f) {
 			u.safeCalls--
+			if u.safeCalls == 0 {
+				// Like any other call, the result of the call is not continued by a pending input
+				// of a sibling expression: github.event == contains('a', 'b').issue.title
+				u.end()
+			}
 		}
 		return
 	}
